@@ -12,6 +12,7 @@ mod c08;
 mod c09;
 mod c11;
 mod c12;
+mod c13;
 mod c14;
 mod c15;
 mod c16;
@@ -38,6 +39,7 @@ fn dispatch(case: &Value) -> Value {
         "c09" => c09::run(k, case),
         "c11" => c11::run(k, case),
         "c12" => c12::run(k, case),
+        "c13" => c13::run(k, case),
         "c14" => c14::run(k, case),
         "c15" => c15::run(k, case),
         "c16" => c16::run(k, case),
